@@ -1,7 +1,8 @@
 """Verify and import sub-agent seeded changes: import_seeded.py <PROP> (reads /tmp/wt_<PROP>/out/*)."""
 import sys, os, json, subprocess, shutil, glob
 prop = sys.argv[1]
-wt = f'/tmp/wt_{prop}'
+rnd = sys.argv[2] if len(sys.argv) > 2 else ''          # e.g. "r2": reads /tmp/w2_<PROP>, writes seeded/<PROP>_r2_<n>
+wt = f'/tmp/w2_{prop}' if rnd else f'/tmp/wt_{prop}'
 env = {**os.environ, 'PYTHONPATH': wt, 'PYTHONDONTWRITEBYTECODE': '1'}
 def sh(cmd, **kw):
     return subprocess.run(cmd, shell=True, cwd=wt, capture_output=True, text=True, env=env, **kw)
@@ -26,7 +27,7 @@ for d in sorted(glob.glob(f'{wt}/out/*')):
     ok = ('218 passed' in t and '9 failed' in t) and d0 == 0 and d1 != 0
     print(n, 'tests:', t, '| demo clean:', d0, 'patched:', d1, '->', 'KEEP' if ok else 'REJECT')
     if ok:
-        dst = f'/verif/seeded/{prop}_{n}'
+        dst = f'/verif/seeded/{prop}_{rnd}_{n}' if rnd else f'/verif/seeded/{prop}_{n}'
         os.makedirs(dst, exist_ok=True)
         for f in ('patch.diff', 'demo.py'):
             shutil.copy(f'{d}/{f}', f'{dst}/{f}')
